@@ -187,6 +187,14 @@ def check(rep, an, tier):
                       msg=f"for {'quantities' if has_units else 'plain numbers'} the result does not depend on `{in_kw}`: the input is labelled with a "
                           f"fixed unit, so values given in another prefix (e.g. 'uE') come out wrong by that factor and the inverse no longer "
                           f"undoes the forward conversion")
+        # broadcasting path with wavelength-major spectra: a COLUMN of wavelengths (n_wl, 1) scales the rows of (n_wl, n_samples)
+        kwc = {src: arr(src, S("WL", "NS"), None), "wavelengths": arr("wavelengths", S("WL", "1"), None), "return_units": none(),
+               "prefix": none(), "axis": none()}
+        resc = an.run(f"{CONV}:{fname}", kws=kwc, spec=hooks(), config="wavelengths as a column, spectra (WL, NS)")
+        R.rule_type_errors(rep, resc, "SHAPE", "R-SHAPE", entry)
+        sc = resc.value.flat().shape
+        rep.check("R-SHAPE", "column wavelengths broadcast along the first axis", None if sc is None else sc == S("WL", "NS"), where=resc.fn.loc(),
+                  construct=f"shape of {fname}((WL, NS), wavelengths (WL, 1))", entry=entry, config=resc.config, msg=f"computed {sc}")
         # axis path
         for axis in (0, 1, -1):
             shp = {0: S("WL", "P", "Q"), 1: S("P", "WL", "Q"), -1: S("P", "Q", "WL")}[axis]
